@@ -2,6 +2,7 @@ import EdzedProps.C01
 import EdzedProps.C02
 import EdzedProps.C09
 import EdzedProps.C14
+import EdzedProps.C15
 import EdzedProps.C16
 import EdzedProps.C17
 import EdzedProps.C20
